@@ -451,9 +451,10 @@ fn remove_anonymous_from_expression(
             let mut i = 0;
             let mut seq_substs = Vec::new();
             // The name cannot be an identifier of the program, so the component is never taken
-            // for a variable of the user (or the other way round).
+            // for a variable of the user (or the other way round). It cannot begin like a
+            // generated loop counter either, whatever the template is called.
             let id_anon_temp = id.to_string()
-                + "@"
+                + "#"
                 + &file_library.get_line(meta.start, meta.get_file_id()).unwrap().to_string()
                 + "_"
                 + &meta.start.to_string();
